@@ -363,6 +363,10 @@ class L2Env:
             # the position of a file among the sources, never its name, decides precedence: every other batch is named in
             # DESCENDING alphabetical order (seeded change C13-D sorted the --configuration files by path)
             p = self.tmp / (f"{'zyxwvu'[i % 6]}{self.n}.yaml" if self.batch % 2 else f"cfg{self.n}.yaml")
+            if self.batch % 3 == 0:
+                # the SAME path as in earlier batches of this process, now with other content (a user edits the file and builds
+                # a new context): what an earlier context read from that path must not show
+                p = self.tmp / f"reused{i}.yaml"
             p.write_text(yaml.safe_dump({"nunavut.lang." + lang: unwrap(f)}))
             paths.append(p)
         return paths
